@@ -6,6 +6,7 @@ for a failing input when a proof obligation or the model/implementation correspo
 import OtpVerif.Spec.Rfc
 import OtpVerif.Spec.Base32
 import OtpVerif.Model.Utils
+import OtpVerif.Spec.SuiteGrammar
 
 namespace OtpVerif.Spec.Run
 open OtpVerif OtpVerif.Spec
@@ -97,8 +98,15 @@ def dec (s : Bytes) : Option String :=
   | .reject => some "err"
   | .silent => none
 
-/-- placeholder until `Spec/SuiteGrammar.lean` is wired in -/
-def suite (_raw : Bytes) : Option String := none
+def showCfg (c : SuiteConfig) : String :=
+  let b (x : Bool) := if x then "1" else "0"
+  s!"{hex c.raw}:{c.hash}:{c.digits}:{c.challenge}:{b c.incC}{b c.incQ}{b c.incP}{b c.incS}{b c.incT}:{c.pwHash}:{c.timeStep}"
+
+/-- C15: an accepted string must be read as the naming scheme says (`if-ok`), an unreadable one must be rejected -/
+def suite (raw : Bytes) : Option String :=
+  match denote raw with
+  | some cfg => some ("if-ok " ++ showCfg cfg ++ " *")
+  | none => some "err *"
 
 def allDigits (s : Bytes) : Bool := !s.isEmpty && s.all isDigitChar
 def decVal (s : Bytes) : Nat := s.foldl (fun n c => n * 10 + (c.toNat - 48)) 0
